@@ -111,3 +111,22 @@ Definition wrr_case_ok (k : edf_case) : bool :=
                               (edf_reach (edf_of_weights ws) r))
             (seq 0 (length ws)) end.
 Definition wrr_mismatches (l : list edf_case) : list nat := mism wrr_case_ok 0 l.
+
+(* --- Adds interleaved with picks (a host joins a running scheduler) -------------------------
+   ops: None = Add the next weight of ws, Some i = the scheduler picked position i. *)
+Fixpoint edf_ops (D : Z) (s : edf) (ws : list Z) (ops : list (option nat)) : bool :=
+  match ops with
+  | [] => true
+  | None :: ops' => match ws with
+                    | w :: ws' => edf_ops D (edf_add s (D / w)) ws' ops'
+                    | [] => false
+                    end
+  | Some i :: ops' => match edf_pick s i with
+                      | Some s' => edf_ops D s' ws ops'
+                      | None => false
+                      end
+  end.
+Definition edf_ops_case := (list Z * list (option nat))%type.
+Definition edf_ops_case_ok (k : edf_ops_case) : bool :=
+  match k with (ws, ops) => edf_ops (prod_weights ws) edf_init ws ops end.
+Definition edf_ops_mismatches (l : list edf_ops_case) : list nat := mism edf_ops_case_ok 0 l.
